@@ -77,7 +77,7 @@ def run(ctx):
     lib.gen_consts(ctx)
     consts = U.gen_json_consts(ctx)
     bad_cfg = {k: consts.get(k) for k, v in U.EXPECTED_CFG.items() if consts.get(k) != v}
-    ok = ctx.check_theorems()
+    ok = U.check_theorems_and_model(ctx)
     if not ok:
         ctx.broken_obligation('Properties_C04.vo', getattr(ctx, 'broken', {}))
     if bad_cfg:
@@ -144,7 +144,7 @@ def run(ctx):
                     pv, pb = rng.choice(pool[r2]); v[f] = pv; st.nested_bytes[id(pv)] = pb
         return v, U.render_root(root, v, st)
 
-    ndocs = 260 if T else 70
+    ndocs = 600 if T else 70
     for k in range(ndocs):
         root = rng.choice(['Root'] * 6 + ['Leaf', 'Other', 'Sub', 'Rec', 'Pt', 'Fix', 'Fix'])
         v, text = make_doc(root, as_bytes=(k % 3 == 0), strict=(k % 4 == 0), depth=rng.choice([1, 2, 3]))
@@ -287,13 +287,13 @@ def run(ctx):
     for root, v, text in docs[:6 if T else 3] + udocs[:4 if T else 2]:
         for fl in allflags: add('all-flags', root, fl, text)
     # EVERY truncation
-    tr = docs[:40 if T else 7] + udocs[:30 if T else 7]
+    tr = docs[:90 if T else 7] + udocs[:60 if T else 7]
     for root, v, text in tr:
         text = text[:1500]
         for cut in range(len(text)):
             add('truncation', root, rng.choice([0, 1, 1, 4, 5, 31]), text[:cut])
     # token level mutations
-    for _ in range(12000 if T else 2500):
+    for _ in range(40000 if T else 2500):
         root, v, text = rng.choice(docs + udocs)
         add('mutation', root, rng.choice(allflags), U.mutate(rng, text))
     # values ending exactly at `end`, in known and unknown fields
@@ -347,7 +347,7 @@ def run(ctx):
             for fl in (0, 2, 4):
                 add('nested-struct-object', 'Root', fl, b'{' + pre + b'"nest_s":' + body + b'}')
     # random bytes
-    for _ in range(3000 if T else 600):
+    for _ in range(12000 if T else 600):
         add('random', rng.choice(U.ROOTS), rng.choice(allflags), bytes(rng.choice(alpha) for _ in range(rng.choice([1, 2, 3, 5, 8, 13, 21, 40, 80]))))
 
     # last: 1 MB of nested known fields (a stack overflow kills the harness process)
@@ -371,7 +371,11 @@ def run(ctx):
             valid_n += 1; valid_ok += (f[:1] == ['OK'])
         if not f or f[0] not in ('OK', 'ERR'):
             if r.startswith('ASAN'):
-                ctx.violation(U.asan_key(r), 'generated parser %s_parse_json_as_root, flags %d: %s on a %d-byte input' % (root, fl, r[:200], n), replay)
+                key = U.asan_key(r)
+                if key.startswith('asan:flatcc_builder_') and re.search(rb'anys"?\s*:', text):
+                    # the open offset vector of a truncated union vector: end_table then works on the wrong frame (reads AND writes out of bounds)
+                    key = 'union-vector-unbalanced-accepted'
+                ctx.violation(key, 'generated parser %s_parse_json_as_root, flags %d: %s on a %d-byte input' % (root, fl, r[:200], n), replay)
             elif r.startswith('HANG'):
                 ctx.violation('hang:parse', 'generated parser %s did not return within 20 s (flags %d)' % (root, fl), replay)
             elif r.startswith('CRASH') and 'stack-overflow' in r:
@@ -395,7 +399,9 @@ def run(ctx):
                     ctx.violation('verify-reject:struct-root-with-size', 'parse of struct root %s with flatcc_json_parser_f_with_size succeeded but %s_verify_as_root_with_size rejects the buffer with error %d' % (root, root, vrc), replay)
                 elif re.search(rb'nest_s"?\s*:\s*\{', text):
                     ctx.violation('nested-struct-root-object', 'nested_flatbuffer field with a struct root given as a JSON object: parse succeeded, verifier rejects with %d' % vrc, replay)
-                elif re.search(rb'nest(_s|64)?"?\s*:\s*[\["]', text) and not klass.startswith('valid'):
+                elif re.search(rb'nest(_s|64)?"?\s*:\s*[\["]', text) and klass.startswith(('valid', 'all-flags', 'unknown-fields')):
+                    ctx.violation('nested-bytes-unaligned', 'nested_flatbuffer field given as the bytes of a valid buffer (byte array / base64): parse succeeded, but the ubyte vector is only 4-byte aligned and the verifier rejects the nested buffer with %d' % vrc, replay)
+                elif re.search(rb'nest(_s|64)?"?\s*:\s*[\["]', text):
                     ctx.violation('nested-bytes-unverified', 'nested_flatbuffer field given as raw bytes that are not a valid buffer: parse succeeded, verifier rejects the result with %d' % vrc, replay)
                 elif re.search(rb'anys"?\s*:', text) and not klass.startswith('valid'):
                     ctx.violation('union-vector-unbalanced-accepted', 'input ending inside a union vector is reported as success; the offset vector is left open and the verifier rejects the result with %d' % vrc, replay)
